@@ -36,7 +36,14 @@ def instantiate(gen_q):
     lx = "(mk_lexicon Run.GenLexicon.mnemonics Run.GenLexicon.mnemonics_without_operand Run.GenLexicon.keywords)"
     text = ("From A816 Require Import Model.Scanner Model.Parser.\nRequire Import Run.GenLexicon.\n"
             f"Lemma C13_live_keyword : mem_str k_include_ips (lx_keywords {lx}) = true.\nProof. vm_compute. reflexivity. Qed.\n")
-    return text, ["C13_live_keyword"]
+    text += ("From A816 Require Import Model.Assemble Proofs.LabelText.\nRequire Import Run.GenBuses Run.GenOpcodes.\n"
+             "Definition L13 : live := {| lv_low := Run.GenBuses.low_rom_bus; lv_high := Run.GenBuses.high_rom_bus; "
+             "lv_busmap := Run.GenBuses.bus_mapping; lv_optable := Run.GenOpcodes.opcode_table; "
+             "lv_prec := Run.GenOpcodes.operator_precedence; "
+             f"lv_lex := {lx} |}}.\n"
+             "Lemma C13_live_tables : tables_ok L13 {| cf_rom := None; cf_defines := [] |}.\n"
+             "Proof. vm_compute. repeat split; try reflexivity; auto 20. Qed.\n")
+    return text, ["C13_live_keyword", "C13_live_tables"]
 RULE = ("IncludeIpsNode(path, Resolver(), delta) on patch files written to a scratch directory: files encoded by the "
         "harness from record lists (plain incl. 65535-byte, run-length incl. run 65535, adjacent/overlapping, offsets at "
         "0, 0xFFFFFF and around 0x454F46, data containing 'EOF'), files produced by the real IPSWriter, files whose EOF "
@@ -290,7 +297,7 @@ def observe(case):
     from a816.symbols import Resolver
     from .. import asmdriver
     # the node class the code generator builds for `.include_ips` (found by behaviour, whatever it is called)
-    IncludeIpsNode = next(c for c, role in asmdriver.node_roles().items() if role == "IncludeIpsNode")
+    IncludeIpsNode = asmdriver.node_roles()["IncludeIpsNode"]
     C.WORK.mkdir(exist_ok=True)
     d = tempfile.mkdtemp(dir=C.WORK, prefix="c13-")
     try:
